@@ -1,30 +1,13 @@
 //go:build verif
 
-package sumfile
+package internal
 
 // Contracts checked by /verif/govc (see /verif/DESIGN.md). This file is compiled only with -tags verif.
 
-//@ func File.Sum
-//@   props C08
+//@ func NewDumper
+//@   props C01 C11
 //@   pure
-//@   requires f != nil
-//@   ensures has(f.Data, pkgPath) ==> result == f.Data[pkgPath]
-//@   ensures !has(f.Data, pkgPath) ==> result == ""
-
-// spec_sumText(keys, data, n): the `path hash` lines of the first n keys, in order.
-func spec_sumText(keys []string, data map[string]string, n int) string {
-	if n <= 0 {
-		return ""
-	}
-	return spec_sumText(keys, data, n-1) + keys[n-1] + " " + data[keys[n-1]] + "\n"
-}
-
-//@ func File.Bytes
-//@   props C08 C04
-//@   requires f != nil
-//@   ensures string(result) == spec_sumText(spec_sortedKeys(f.Data), f.Data, len(f.Data))
-//@   loop 1 invariant b != nil && b.String() == spec_sumText(xs1, f.Data, it1)
-//@   note one `path hash` line per entry, keys ascending: a function of the map's contents only (order independence, C04)
+//@   ensures fresh(result) && result.namer == rawNamer
 
 // ---- govc prelude: ghost helpers of the clause language (identical in every contracts_verif.go) ----
 
